@@ -349,6 +349,15 @@ func (a *VersionedAttestation) UnmarshalSSZ(b []byte) error {
 		// Previously a bug was introduced where validator index was not marshaled.
 		// Ensure backwards compatibility with nodes that have not yet updated to the new fixed version.
 		if !errors.Is(err, ssz.ErrOffset) {
+			// The legacy layout holds the low bytes of the attestation slot where the current layout holds its
+			// offset, so a legacy encoding whose slot looks like that offset only fails later, in the value.
+			if legacyVersion, legacyErr := unmarshalSSZVersioned(b, a.sszValFromVersion); legacyErr == nil {
+				a.Version = legacyVersion.ToETH2()
+				a.ValidatorIndex = nil
+
+				return nil
+			}
+
 			return errors.Wrap(err, "unmarshal VersionedAttestation")
 		}
 
